@@ -87,7 +87,9 @@ func c14Triple(rng *rand.Rand) ruleTriple {
 	}
 	if rng.Intn(2) == 0 {
 		t.HasMsg = true
-		switch rng.Intn(6) {
+		switch rng.Intn(7) {
+		case 6: // contains a label word: the parser still prefixes its label
+			t.Msg = []string{"see explain: 1-10", "年龄说明: 1-3", "explain:", "x 说明: y explain: z"}[rng.Intn(4)]
 		case 0: // one character
 			t.Msg = string([]rune("x必9=")[rng.Intn(4)])
 		case 1: // contains '='
